@@ -21,8 +21,8 @@ from bctmc.tally import Tally
 PROPERTY = 'C05'
 RULE = ('for every public callable with a seed parameter (discovered by introspection) x 1-2 tiny argument tuples: '
         'breadth-first search over all operation sequences up to depth 4 (quick) / 5 (thorough) over the alphabet '
-        '{np.random.seed(0), np.random.seed(1), one global draw, call(seed=0), call(seed=1), call(seed=RandomState(0)), '
-        'call(seed=RandomState(1)), call()} with states identified by the global generator state; plus scripted-generator '
+        '{np.random.seed(0), np.random.seed(1), one global draw, call(seed=0), call(seed=1), call(seed=-1), call(seed=2**40+3), '
+        'call(seed=RandomState(0)), call(seed=RandomState(1)), call()} with states identified by the global generator state; plus scripted-generator '
         'exploration (first 300 / 3000 executions in deviation order) with global-state snapshots; non-trivial = distinct '
         '(function, argument tuple, reachable global state) triples expanded')
 ASSUMPTIONS = ['mirror model: a private RandomState that receives the same seed()/rand() operations; an unseeded call must '
@@ -30,7 +30,8 @@ ASSUMPTIONS = ['mirror model: a private RandomState that receives the same seed(
                'results compared structurally with NaN-equality; exceptions by type and message',
                'engine A part is bounded by an execution cap (reported), the history search is complete for its depth']
 
-OPS = ('G0', 'G1', 'D', 'S0', 'S1', 'R0', 'R1', 'U')
+OPS = ('G0', 'G1', 'D', 'S0', 'S1', 'R0', 'R1', 'U', 'Sneg', 'Sbig')
+SEEDS = {'0': 0, '1': 1, 'neg': -1, 'big': 2 ** 40 + 3}      # neg/big: outside RandomState's range (get_rng folds them)
 
 
 def plan(ctx):
@@ -122,7 +123,7 @@ def histories(t, name, idx, depth):
                     if x != y:
                         raise RuntimeError('mirror model broken')
                 elif op[0] in 'SR':
-                    k = int(op[1])
+                    k = SEEDS[op[1:]]
                     seed = k if op[0] == 'S' else np.random.RandomState(k)
                     r = run_call(name, idx, {'seed': seed})
                     if isinstance(r, NoReturn):
